@@ -96,3 +96,56 @@ def cross_namespace_models():
                 nss = {home: Namespace(home, (File(None, (), home_defs),)), user: Namespace(user, (File(None, (home,), user_defs),))}
                 out.append((Model((nss['na'], nss['nb'])), ('cross-namespace-alias', 'prim%d' % pi, 'wrap%d' % wi, home + '->' + user)))
     return out
+
+
+def annotation_models():
+    """Custom annotation types, which the construction machine's annotation family (built-in annotations only) does not build:
+    annotation types with 0 / 1 / 2 parameters (with and without defaults and docs), annotations created from them with
+    positional and keyword arguments, applied to struct fields, union tags and aliases, locally and from an imported namespace."""
+    from .model import (Model, Namespace, File, Alias, AnnType, Annotation, AnnRef, R, N, L, P, VOID, mkfield, mktag, mkstruct, mkunion, mkroute)
+    I32, STR, BOOL, F64 = P('Int32', ()), P('String', ()), P('Boolean', ()), P('Float64', ())
+    out = []
+    param_sets = [
+        ('p0', ()),
+        ('p1', (mkfield('level', I32),)),
+        ('p1d', (mkfield('note', STR, 'n/a', doc='A note with "quotes".'),)),
+        ('p2', (mkfield('level', I32), mkfield('flag', BOOL, True))),
+        ('p2n', (mkfield('ratio', N(F64)), mkfield('note', STR, 'a b'))),
+    ]
+    for pname, params in param_sets:
+        for doc in (None, 'Marks things.\n\nSecond paragraph.'):
+            if not params and doc is None:
+                continue        # an annotation type needs a body: a doc or a parameter
+            at = AnnType('Mark', params, doc)
+            required = [p for p in params if p.default == ('nodef',) and not isinstance(p.type, N)]
+            arg_sets = []
+            vals = {'level': 3, 'flag': False, 'note': 'hello', 'ratio': 1.5}
+            arg_sets.append(((), tuple((p.name, vals[p.name]) for p in required)))                      # keyword arguments, required only
+            arg_sets.append((tuple(vals[p.name] for p in params), ()))                                  # all positional
+            if len(params) == 2:
+                arg_sets.append(((vals[params[0].name],), ()))                                          # a positional prefix (when the rest is optional)
+                if params[1].default == ('nodef',) and not isinstance(params[1].type, N):
+                    arg_sets.pop()
+            for ai, (args, kwargs) in enumerate(arg_sets):
+                for home in (None, 'nb'):
+                    ann = Annotation('Mk', 'Mark', None, args, kwargs)
+                    ann2 = Annotation('Mk2', 'Mark', None if home is None else 'nb', args, kwargs)
+                    user = (mkstruct('Sus', fields=[mkfield('fa', I32, anns=(AnnRef(home, 'Mk'),)), mkfield('fb', N(STR), anns=(AnnRef(None, 'Mk2'),))]),
+                            mkunion('Uus', tags=[mktag('tv'), mktag('tu', STR, anns=(AnnRef(home, 'Mk'),))]),
+                            Alias('Aus', I32, None, (AnnRef(None, 'Mk2'),)),
+                            mkroute('rus', 1, R(None, 'Sus'), VOID, VOID),
+                            ann2)
+                    if home is None:
+                        na = Namespace('na', (File(None, (), tuple(sorted((at, ann) + user, key=mm_def_key))),))
+                        model = Model((na,))
+                    else:
+                        nb = Namespace('nb', (File(None, (), (ann, at)),))
+                        na = Namespace('na', (File(None, ('nb',), tuple(sorted(user, key=mm_def_key))),))
+                        model = Model((na, nb))
+                    out.append((model, ('annotation-types', pname, 'doc' if doc else 'nodoc', 'args%d' % ai, 'imported' if home else 'local')))
+    return out
+
+
+def mm_def_key(d):
+    from . import model as mm
+    return mm.def_sort_key(d)
